@@ -77,3 +77,10 @@ PROPS["C01"] = {
     "rule": "seeded ASTs (<= 4 rules/3 entries/3 spans quick; 6/4/4 thorough; each selector kind alone in ~30% of rotating shards) rendered to one of their spellings x holiday context (none / 6 synthetic calendars / embedded countries) x 64 targeted + 48 random days (thorough: 300 + 200 + 400..800-day sweep; single-selector expressions swept day by day 1900..2100). Oracle: model_day() of harness/src/model.rs. Non-trivial = expression has a selector other than 24/7 (cases_with_varying_schedule counts those whose model array varies over the probed days); distinct by hash of (AST, context).",
     "assumptions": ["chrono's proleptic Gregorian calendar and ISO week numbers", "the harness's selector arithmetic (model.rs), cross-checked by the seeded mutants and by staying silent on the repaired tree", "abstention shapes listed in DESIGN.md section 5 are not judged"],
 }
+
+PROPS["C02"] = {
+    "technique": "self-consistency monitor over the public API plus an offline check of the iterator's skip log (hook H2): interval stream vs schedule_at on every day the iterator did not look at",
+    "level_text": "For generated (expression, context, window) the whole interval stream is consumed and checked for tiling (non-empty, increasing, gap-free, exact cover of [from, min(to, 10000-01-01)), alternating states) and every interval is compared with the daily schedules: all days of short intervals, and for long ones exactly the days the iterator reports as skipped (hook H2) plus model-derived candidate days. Exploration; the evidence states how many skipped days were point-checked and how many days inside long intervals were not.",
+    "rule": "seeded ASTs (a third biased to long constant intervals) x holiday contexts x windows: short (<= 10 days, arbitrary start second), medium (<= 3 years), long (<= 60 years; thorough up to 8100 years), straddling 1900 / 9999, empty, inverted, open-ended (capped). Oracle: schedule_at of the same value (C01 ties it to the semantics). Non-trivial = stream with >= 2 intervals or a skip of >= 2 days; distinct by hash of (AST, context, window).",
+    "assumptions": ["schedule_at is the pointwise truth (decided separately by C01)", "hook H2 reports every jump of the day cursor (one call site, reviewed)"],
+}
